@@ -16,9 +16,9 @@ Cm(k, h, d, a) == [k |-> k, h |-> h, d |-> d, a |-> a]
 Programs ==
   << \* 1: straight line, output on some steps only:  A . B
      << Cm(0,65,1,Nil), Cm(1,1,1,Nil), Cm(0,1,1,Nil), Cm(0,66,1,Nil), Cm(1,1,1,Nil) >>,
-     \* 2: a loop that revisits a break-pointed index and prints on each round (1_to_8 shortened to 1..4)
-     << Cm(0,1,0,Nil), Cm(3,1,4,H(4)), Cm(3,1,5,Nil), Cm(0,1,1,Nil), Cm(1,2,3,Nil), Cm(3,1,1,Nil), Cm(5,1,3,Nil),
-        Cm(3,2,2,<<"!", Nil, H(4)>>) >>,
+     \* 2: a loop that revisits a break-pointed index and prints on each round (examples/1_to_8)
+     << Cm(0,1,0,Nil), Cm(3,1,8,H(4)), Cm(3,1,4,Nil), Cm(0,1,1,Nil), Cm(1,2,3,Nil), Cm(3,1,1,Nil), Cm(5,1,3,Nil),
+        Cm(3,2,4,<<"!", Nil, H(4)>>) >>,
      \* 3: program-requested exit through stack 1 with text pending
      << Cm(0,67,1,Nil), Cm(1,1,1,Nil), Cm(0,68,1,Nil), Cm(1,1,2,Nil), Cm(5,1,1,Nil), Cm(1,1,3,Nil), Cm(0,1,1,Nil) >>,
      \* 4: exit through stack 2 inside an area evaluation
@@ -26,7 +26,11 @@ Programs ==
      \* 5: fractions, negatives and NaN on the stacks; stderr output
      << Cm(0,1,3,Nil), Cm(4,1,4,Nil), Cm(0,1,2,Nil), Cm(3,1,5,Nil), Cm(1,3,6,Nil), Cm(0,70,1,Nil), Cm(1,1,2,Nil) >>,
      \* 6: a single command
-     << Cm(0,1,1,Nil) >> >>
+     << Cm(0,1,1,Nil) >>,
+     \* 7: a loop whose back edge leads to the very first command (history non-empty at index 0)
+     << Cm(0,1,3,H(5)), Cm(1,1,3,H(5)) >>,
+     \* 8: return jump to the first command, output on the way
+     << Cm(0,71,1,H(2)), Cm(1,1,1,Nil), Cm(0,72,1,H(2)), Cm(1,1,1,H(13)) >> >>
 
 DCmds == {<<"n">>, <<"p">>, <<"r">>, <<"s">>, <<"bl">>, <<"h">>, <<"x">>, <<"">>}
 BreakArgs(prog) == {0, 1, 2, Len(prog) - 1, Len(prog), Len(prog) + 1}
